@@ -82,7 +82,7 @@ func c17Check(env *core.Env, cc core.Case) core.Verdict {
 	}
 
 	switch c.Cmd {
-	case "generate", "generate-include", "generate-except", "generate-cmdline", "generate-define", "generate-define-include":
+	case "generate", "generate-stdin", "generate-include", "generate-include-affix", "generate-except", "generate-cmdline", "generate-define", "generate-define-include":
 		long := "q" + longBody(c.Len-1)
 		if c.Len == 1 {
 			long = "q"
@@ -94,9 +94,19 @@ func c17Check(env *core.Env, cc core.Case) core.Verdict {
 		switch c.Cmd {
 		case "generate":
 			program = c.join(lines)
+		case "generate-stdin":
+			program = c.join(lines)
 		case "generate-include":
 			tree["regex-assembly/include/big.ra"] = c.join(lines)
 			program = "zulu26\n##!> include big\n"
+			accept = append(accept, "zulu26")
+		case "generate-include-affix":
+			// the include file has its own prefix and suffix, so its text is copied into a local block
+			tree["regex-assembly/include/big.ra"] = "##!^ pre\n##!$ post\n" + c.join(lines)
+			program = "zulu26\n##!> include big\n"
+			for i := range accept {
+				accept[i] = "pre" + accept[i] + "post"
+			}
 			accept = append(accept, "zulu26")
 		case "generate-except":
 			tree["regex-assembly/include/big.ra"] = c.join(lines)
@@ -142,6 +152,14 @@ func c17Check(env *core.Env, cc core.Case) core.Verdict {
 		}
 		before := sut.Snap(root)
 		r := sut.Run(sut.Cmd{Bin: env.Bin, Args: []string{"-d", root, "regex", "generate", "932100"}, Dir: root, Timeout: 120 * 1e9})
+		if c.Cmd == "generate-stdin" {
+			// the same bytes on stdin must give the same output as the file argument
+			r2 := sut.Run(sut.Cmd{Bin: env.Bin, Args: []string{"-d", root, "regex", "generate", "-"}, Stdin: []byte(program), Dir: root, Timeout: 120 * 1e9})
+			if r2.Exit != r.Exit || string(r2.Stdout) != string(r.Stdout) {
+				return core.Viol("stdin-differs-from-file:generate", "generate - on %d bytes (one %d-byte line at position %s) prints %d bytes (exit %d), the same bytes as a file argument give %d bytes (exit %d)", len(program), c.Len, c.Pos, len(r2.Stdout), r2.Exit, len(r.Stdout), r.Exit)
+			}
+			r = r2
+		}
 		if done, vv := loud(r, before); done {
 			return vv
 		}
@@ -334,7 +352,7 @@ func init() {
 	register(&core.Property{
 		ID:    "C17",
 		Level: "exploration",
-		Rule: "every line-oriented command (generate from a file, through include, through include-except, inside a cmdline block and through the expansion of a definition in the file or in an include file; format and format --check; renumber-tests; update-copyright; update) gets an input in which one line has length L in {1, 4096, 65535, 65536, 65537, 70000, 262144, 1048576} at the first, middle or last position among 0..9 short lines, with and without final newline (enumerated completely in both tiers; the thorough tier adds PRNG-chosen lengths around the 64 KiB boundary). " +
+		Rule: "every line-oriented command (generate from a file and from stdin (total input above 1 MiB included), through include, through an include file that has its own prefix and suffix, through include-except, inside a cmdline block and through the expansion of a definition in the file or in an include file; format and format --check; renumber-tests; update-copyright; update) gets an input in which one line has length L in {1, 4096, 65535, 65536, 65537, 70000, 262144, 1048576} at the first, middle or last position among 0..9 short lines, with and without final newline (the quick tier enumerates L in {1, 65535, 65536, 70000} at all positions and 1 MiB in the middle; the thorough tier enumerates everything and adds PRNG-chosen lengths around the 64 KiB boundary). " +
 			"Oracle (conservation): either the command fails loudly and changes nothing, or the generated/stored regex accepts every entry including those after the long one and the long entry itself (checked with Go's regexp engine), and rewritten files equal the line model of the respective command. Non-trivial = L >= 65536.",
 		Cases: func(env *core.Env, rng *rand.Rand) []core.Case {
 			var cs []core.Case
@@ -344,10 +362,13 @@ func init() {
 					lens = append(lens, 65000+rng.Intn(1200), 131072-2+rng.Intn(5), 600000+rng.Intn(500000))
 				}
 			}
-			for _, cmd := range []string{"generate", "generate-include", "generate-except", "generate-cmdline", "generate-define", "generate-define-include", "format", "format-check", "renumber", "copyright", "update"} {
+			for _, cmd := range []string{"generate", "generate-stdin", "generate-include", "generate-include-affix", "generate-except", "generate-cmdline", "generate-define", "generate-define-include", "format", "format-check", "renumber", "copyright", "update"} {
 				for _, l := range lens {
 					for _, pos := range []string{"first", "middle", "last"} {
 						for _, nf := range []bool{false, true} {
+							if !env.Thorough() && (l == 4096 || l == 65537 || l == 262144 || (l == 1048576 && pos != "middle")) {
+								continue // the quick tier keeps the boundary lengths and one position for the 1 MiB line
+							}
 							if cmd == "generate-cmdline" && l > 70000 {
 								continue // the evasion pattern between every two characters makes this quadratic work for the engine, not a truncation question
 							}
